@@ -202,6 +202,27 @@ def run_workers(exe, variant, prop, tier, seed, ncases, budget_s, collect):
     for w in range(nworkers):
         idx = list(range(w, ncases, nworkers))
         workers.append(Worker(exe, prop, tier, seed, idx, w, variant, scratch, nworkers))
+
+    def consume(wk, data):
+        wk.last_out = time.time()
+        wk.buf += data
+        while b"\n" in wk.buf:
+            line, wk.buf = wk.buf.split(b"\n", 1)
+            s = line.decode(errors="replace")
+            wk.tail.append(s)
+            if len(wk.tail) > 120:
+                wk.tail = wk.tail[-120:]
+            if s.startswith("BEGIN "):
+                wk.cur = int(s[6:])
+            elif s.startswith("RES "):
+                wk.cur_done = wk.cur
+                if wk.cur in wk.pending:
+                    wk.pending.remove(wk.cur)
+                wk.cur = None
+                collect(s, variant)
+            else:
+                collect(s, variant)
+
     t0 = time.time()
     # a case normally takes well under a second; a worker silent for this long is stuck in one (hang) or the machine is
     # badly overloaded. The limit has to stay well below the time budget or a hang would simply eat the budget.
@@ -219,24 +240,7 @@ def run_workers(exe, variant, prop, tier, seed, ncases, budget_s, collect):
             except (BlockingIOError, OSError):
                 data = None
             if data:
-                wk.last_out = time.time()
-                wk.buf += data
-                while b"\n" in wk.buf:
-                    line, wk.buf = wk.buf.split(b"\n", 1)
-                    s = line.decode(errors="replace")
-                    wk.tail.append(s)
-                    if len(wk.tail) > 120:
-                        wk.tail = wk.tail[-120:]
-                    if s.startswith("BEGIN "):
-                        wk.cur = int(s[6:])
-                    elif s.startswith("RES "):
-                        wk.cur_done = wk.cur
-                        if wk.cur in wk.pending:
-                            wk.pending.remove(wk.cur)
-                        wk.cur = None
-                        collect(s, variant)
-                    else:
-                        collect(s, variant)
+                consume(wk, data)
             rc = p.poll()
             if rc is not None and not data:
                 # drain
@@ -245,7 +249,7 @@ def run_workers(exe, variant, prop, tier, seed, ncases, budget_s, collect):
                 except (BlockingIOError, OSError):
                     rest = None
                 if rest:
-                    wk.buf += rest
+                    consume(wk, rest)   # (output that arrived between the read above and the poll: parse it like any other)
                     continue
                 finished_clean = any(t == "DONE" for t in wk.tail[-5:])
                 if finished_clean and rc == 0:
